@@ -253,6 +253,25 @@ def bstep (b : Broker κ α) : BOp κ α → Broker κ α × Out α
     let ls := b.cur.reverse.map (·.2)
     (ls.foldl (fun acc l => (acc.onItem l .aclose).1) { b with cur := [] }, .ok)
 
+/-- One iteration of the loop of `PubSub.close()` (`while self._queue: _, q = self._queue.popitem(); await q.aclose()`): the most
+recently inserted key is popped and its item closed.  `close()` suspends at every `await q.aclose()`, so other tasks may
+subscribe, publish or end keys between two iterations; the loop goes on until the dict is empty. -/
+def Broker.closeStep (b : Broker κ α) : Broker κ α :=
+  match b.cur.reverse with
+  | [] => b
+  | (k, l) :: _ => ({ b with cur := b.cur.filter fun e => e.1 ≠ k }.onItem l .aclose).1
+
+/-- a step of an execution in which `close()` is in flight: an operation of another task, or one iteration of the closer's loop -/
+inductive CStep (κ α : Type) where
+  | op (o : BOp κ α)
+  | closeStep
+
+def cstep (b : Broker κ α) : CStep κ α → Broker κ α
+  | .op o => (bstep b o).1
+  | .closeStep => b.closeStep
+
+def csteps (b : Broker κ α) (l : List (CStep κ α)) : Broker κ α := l.foldl cstep b
+
 def Broker.latest (b : Broker κ α) (k : κ) : Option α :=
   match b.lookup k with
   | none => none
